@@ -30,7 +30,7 @@ Whitelist (see `_Tr`):
   expressions parameters and locals; mapped expressions (per-kernel map keyed by the source text after
               expanding local object aliases); int/float/bool literals; `+ - * /`, `//` and `%`
               (`Int.fdiv`/`Int.fmod`, Python's floor semantics; plain `/` `%` on naturals), `divmod`,
-              `& | << >>` on naturals, unary `-`/`+`, `** 2`, `<int literal> ** <int expression>`,
+              `& | << >>` on naturals, unary `-`/`+`, `~` on a boolean array, `** 2`, `<int literal> ** <int expression>`,
               `0.5 ** x` where the scalar class has `powHalf`; comparisons incl. chains; `and/or/not`;
               truth value of an integer (`!= 0`), `bool()`; `is None` / `is not None` on designated
               optionals (decided by a `match` hoisted to the top of the def; the body is partially
@@ -39,7 +39,8 @@ Whitelist (see `_Tr`):
               `np.sqrt/cos/sin/tan/arctan/arctan2/arcsin/arccos` and the `math.` equivalents,
               `np.power`, `np.pi`, `np.radians/np.degrees` (numpy's definitions `x*(pi/180)`,
               `x*(180/pi)`), `np.interp(x, [..], [..])` (the model's `interp`); `math.ceil/np.ceil`,
-              `math.trunc`, `int()` of an integer, `float()`, `Fraction(<int>)`; array parameters
+              `math.trunc`, `int()` of an integer, `int(x / c)` of a natural x and a positive integer literal c (division
+              of naturals), `float()`, `Fraction(<int>)`; array parameters
               combined with scalars (`a * s`, `s + a`, `a > s`), `np.array(a)`, `np.array([])`,
               `np.arange(n)`, `np.any(a > s)`; `len()` of a mapped list; `any(t for x in l)` / `all(..)` over a mapped
               list (`List.any/all`, one `for` clause, no filter); `a is b` / `a is not b` on identity tokens (kind `id`);
@@ -55,7 +56,8 @@ Whitelist (see `_Tr`):
               condition as a guard); or `value_of`: the expression of one statement (right-hand side,
               `if` test, returned value); or `range`: the statements from one statement to another of
               the same block, with designated outputs.  Statements are designated by the beginning of
-              their (ast-normalised) source text and must be unique in the function.
+              their (ast-normalised) source text and must be unique in the function (the stop statement of a
+              range: the first match after the start statement in the start statement's block).
 """
 import ast
 import copy
@@ -388,10 +390,13 @@ def select_range(fn, start, stop):
     blk, i = find_statement(fn, start)
     j = len(blk)
     if stop is not None:
-        blk2, j2 = find_statement(fn, stop)
-        if blk2 is not blk or j2 <= i:
+        # the stop statement: the first later statement of the start statement's block that matches (the same text may
+        # occur in other blocks of the function, e.g. `pv = np.zeros(n)` in several branches)
+        later = [n for n in range(i + 1, len(blk))
+                 if (re.match(stop[3:], ast.unparse(blk[n])) if stop.startswith("re:") else ast.unparse(blk[n]).startswith(stop))]
+        if not later:
             raise Refuse("range (%r, %r): the stop statement is not later in the same block" % (start, stop))
-        j = j2
+        j = later[0]
     return list(blk[i:j])
 
 
@@ -602,6 +607,8 @@ class _Tr:
             l, k = env.exprs[text]
             if k in ("true", "false"):
                 return _const(k == "true")  # declared constant on this kernel's domain (see the registry note)
+            if k.startswith("vec:"):
+                return self.vecparam(l, env, k[4:])
             return Val(l, k) if k != "vec" else self.vecparam(l, env, "rat" if not self.alpha else "alpha")
         return None
 
@@ -684,6 +691,9 @@ class _Tr:
             if v.kind == "vec":
                 return self.vecmap(v, lambda b: self.e_neg(b, node, isinstance(node.op, ast.USub)))
             return self.e_neg(v, node, isinstance(node.op, ast.USub))
+        if isinstance(node.op, ast.Invert) and v.kind == "vec" and v.body.kind in ("bool", "prop"):
+            # `~mask` on a boolean array: element-wise not
+            return self.vecmap(v, lambda b: Val("(¬ %s)" % self.as_prop(b, node), "prop"))
         self.bad(node, "unary operator %s" % type(node.op).__name__)
 
     def e_neg(self, v, node, neg):
@@ -1110,6 +1120,13 @@ class _Tr:
             return Val("(Earverif.Gen.pyTrunc %s)" % a.lean, "int")
         if fn == "int" and n == 1:
             a = args[0]
+            d = node.args[0]
+            if isinstance(d, ast.BinOp) and isinstance(d.op, ast.Div):
+                # int(x / c) of a natural number x and a positive integer literal c: the quotient is >= 0, so truncation
+                # is the floor, i.e. division of naturals
+                x, c = self.expr(d.left, env), self.expr(d.right, env)
+                if x.kind == "nat" and c.kind == "lit" and not c.isfloat and c.q.denominator == 1 and c.q > 0:
+                    return Val("(%s / %s)" % (x.lean, self.num(c, "nat", node)), "nat")
             if a.kind in ("int", "nat") or (a.kind == "lit" and not a.isfloat):
                 return a
             self.bad(node, "int() of a non-integer (%s) value (use math.trunc/ceil)" % a.kind)
